@@ -232,3 +232,9 @@ T("c10-twin-split-more", "C10", (R + "tsp/generator.py", "UniformGenerator.__cal
 B("c04-connector-mask-stricter", "C04", "C04.R3b", (R + "connector/utils.py", "is_valid_position", "expr", "in_bounds & open_cell & not_connected", "in_bounds & open_cell"),
   (R + "connector/env.py", "Connector._get_action_mask", "expr", "is_valid_position(grid, agent, agent_pos)", "is_valid_position(grid, agent, agent_pos) & ~agent.connected"))
 B("c04-connector-step-stricter", "C04", "C04.R3b", (R + "connector/env.py", "Connector._step_agent", "expr", "action != NOOP", "action > NOOP + 1"))
+B("c17-step-default-size", "C17", "C17.R1", (L + "rubiks_cube/env.py", "RubiksCube.step", "expr", "flatten_action(unflattened_action=action, cube_size=self.generator.cube_size)", "flatten_action(unflattened_action=action, cube_size=3)"))
+B("c17-inner-slice-rotates-face", "C17", "C17.R4", (RU, "do_rotation", "expr", "depth == 0", "depth >= 0"))
+B("c01-sliding-sparse-int-reward", "C01", "C01.R7", (L + "sliding_tile_puzzle/reward.py", "SparseRewardFn.__call__", "replace_stmt", "return", "return jnp.where(jnp.array_equal(next_state.puzzle, solved_puzzle), 1, 0)"))
+B("c01-snake-reward-bool", "C01", "C01.R7", (R + "snake/env.py", "Snake.step", "expr", "jnp.asarray(fruit_eaten, float)", "jnp.asarray(fruit_eaten)"))
+B("c01-snake-count-float", "C01", "C01.R7", (R + "snake/env.py", "Snake.reset", "kwarg", "step_count", "jnp.array(0, jnp.int32)", "jnp.array(0, float)"))
+B("c10-maze-divmod-rows", "C10", "C10.R4", (R + "maze/generator.py", "RandomGenerator.__call__", "expr", "jnp.divmod(start_and_target_indices, self.num_cols)", "jnp.divmod(start_and_target_indices, self.num_rows)"))
